@@ -54,7 +54,7 @@ def _self_calls(body):
 
 EXPECT = {
     # method: allowed primitive kinds
-    "set": {"store"},
+    "set": {"store", "swap"},   # an unconditional swap whose result is dropped is a store
     "get": {"load"},
     "inc_by": {"fetch_add"},
     "dec_by": {"fetch_sub"},
@@ -274,7 +274,7 @@ def rule_R4_no_nonatomic_rmw(ctx, facts_list, rid="R4"):
             b = f.bodies[k]
             for c in b.calls():
                 p = atomic_prim(c)
-                is_store = p == "store"
+                is_store = p in ("store", "swap")
                 is_set = c.matches(["Atomic::set", "Value::set", "GenericGauge::set"]) and "prometheus::" in c.callee
                 if not (is_store or is_set):
                     continue
